@@ -27,6 +27,22 @@ class N(NodeMixin):
         raise AttributeError(name)
 
 
+class NV(N):
+    """value/container semantics: all instances equal, empty, falsy"""
+
+    def __eq__(self, other):
+        return True
+
+    def __ne__(self, other):
+        return False
+
+    def __hash__(self):
+        return 3
+
+    def __len__(self):
+        return 0
+
+
 def _restricted_preorder(children, s, stopf, filtf, maxlevel):
     out = []
 
@@ -65,7 +81,7 @@ def _tree(cfg):
     n = nondet_int(1, cfg["N"], "n")
     pv = pick_parent_vector(n)
     parent, children = model_from_pv(pv)
-    nodes = build(pv, N)
+    nodes = build(pv, NV if cfg.get("valsem") else N)
     s = nondet_int(0, n - 1, "start") if cfg.get("starts", True) else 0
     maxlevel = nondet_sym(int, "maxlevel") if nondet_bool("maxlevel_given") else None
     return n, pv, children, nodes, s, maxlevel
